@@ -914,6 +914,43 @@ def rule_ply_counter(ctx):
 
 
 
+def rule_move_counter(ctx):
+    """"No legal move" (mate / stalemate at an interior node, the null answer at the root) is told by a counter: it starts at 0
+    before the move loop and goes up by one for every move that passed the legality test."""
+    ix = ctx.ix
+    for key in (C.ALPHA_BETA_START, C.ALPHA_BETA):
+        b = ctx.body(key)
+        sym = ctx.sym(b)
+        tested = set()
+        for blk in b.blocks:
+            if blk.cleanup or blk.term["k"] != "switch" or blk.idx not in b.live_blocks() or b.in_loop(blk.idx):
+                continue
+            e = mir.strip_copies(sym.operand(blk.term["discr"]))
+            if e[0] == "bin" and e[1] in ("Eq", "Ne", "Gt") and e[3] == ("const", 0, e[3][2] if len(e[3]) > 2 else None) and mir.strip_copies(e[2])[0] == "var":
+                tested.add(mir.strip_copies(e[2])[1])
+        cands = []
+        for name in sorted(tested):
+            ls = [l for l in range(len(b.locals)) if b.local_name(l) == name]
+            if len(ls) != 1:
+                continue
+            ds = b.defs().get(ls[0], [])
+            inits = [d for d in ds if not b.in_loop(d[0])]
+            incs = [d for d in ds if b.in_loop(d[0])]
+            if not incs:
+                continue
+            init_ok = len(inits) == 1 and inits[0][2].get("k") == "use" and mir.const_int(inits[0][2]["a"]) == 0
+            inc_ok = True
+            for (db, di, rv) in incs:
+                v = mir.strip_copies(sym.rvalue(rv)) if rv.get("k") not in ("call", "partial") else ("?",)
+                step = v[0] == "bin" and v[1].startswith("Add") and mir.strip_copies(v[2]) == ("var", name) and v[3][0] == "const" and v[3][1] == 1
+                legal = any(c[3][0] == "call" and c[3][1] in ("std::result::Result::is_err", "std::result::Result::is_ok") and "is_legal_move" in c[0] for c in C.constraints_for(ix, b, sym, db))
+                inc_ok = inc_ok and step and legal
+            cands.append((name, init_ok, inc_ok, len(incs)))
+        ok = len(cands) == 1 and cands[0][1] and cands[0][2] and cands[0][3] == 1
+        ctx.check(ok, "%s:legal-move-counter" % key, "the counter tested against 0 after the move loop starts at 0 and is raised by 1 exactly for the moves that passed is_legal_move", b.where(0),
+                  bad_what="in %s the `no legal move` test reads a counter that does not start at 0 / is not raised once per legal move (%s): checkmate and stalemate are not recognised, or are seen where there is none" % (C.short(key), cands))
+
+
 def rule_legal_children(ctx):
     """The look-ahead game is played with legal moves only: in the tree walk (root, interior, quiescence) every move that is
     made was tested with is_legal_move on the same board and passed."""
@@ -946,7 +983,7 @@ def rule_legal_children(ctx):
     ctx.floor("moves made in the tree walk", n, 3)
 
 
-RULES = [("legal-children", rule_legal_children), ("exits", rule_exits), ("ply-counter", rule_ply_counter), ("root-result", rule_root_result), ("permutation", rule_permutation), ("noninterference", rule_noninterference), ("windows", rule_windows), ("cut", rule_cut), ("terminal", rule_terminal)]
+RULES = [("legal-children", rule_legal_children), ("move-counter", rule_move_counter), ("exits", rule_exits), ("ply-counter", rule_ply_counter), ("root-result", rule_root_result), ("permutation", rule_permutation), ("noninterference", rule_noninterference), ("windows", rule_windows), ("cut", rule_cut), ("terminal", rule_terminal)]
 # the two immediate draws of the reference game read the half-move clock and the list of earlier positions: what they read is
 # what the rules of chess say (C03: clock table, accessors, the record of earlier positions)
 # keys stand for positions only as far as comparing two keys compares the whole word (C05.key-identity)
